@@ -142,6 +142,8 @@ SIG_EDGE = {"site": "StorageKeyFormingConvention.make_v2_key", "shape": "name pa
 SIG_V1LONG = {"site": "StorageKeyFormingConvention.make_v1_key", "shape": "prefix of 55+ chars: v1 name part starts with '-' or exceeds 63"}
 SIG_DIGEST = {"site": "StorageKeyFormingConvention.make_suffix", "shape": "32-bit digest collision: distinct long ids sharing a prefix get the same annotation names"}
 SIG_SAFEFORM = {"site": "StorageKeyFormingConvention.make_safe_key", "shape": "distinct ids with the same safe form share one annotation"}
+SIG_RESERVED = {"site": "AnnotationsProgressStorage/AnnotationsDiffBaseStorage", "shape": "handler id equal to a name the storages use themselves (kopf-managed marker, touch key, diff-base key) under the same prefix"}
+SIG_CHARSET = {"site": "StorageKeyFormingConvention.make_safe_key", "shape": "id character outside [A-Za-z0-9_./<>-] passes into the annotation name (kopf's own lambda ids contain ':')"}
 SIG_V1NEG = {"site": "StorageKeyFormingConvention.make_v1_key", "shape": "negative v1 cut: the v1 name of an id is the v2 name of its safe form"}
 SIG_FORGED = {"site": "StorageKeyFormingConvention.make_v2_key", "shape": "short id equal to the hashed name of a long id shares its annotation"}   # F6e (also the V1 name)
 
@@ -441,8 +443,14 @@ def gen_id(rng, plen: int) -> tuple[str, str, str]:
     else:
         band, L = "max", rng.choice([299, 300])
     L = max(1, min(300, L))
-    shape = rng.choices(["name", "sub", "field", "qual", "rand", "edge", "reserved"],
-                        weights=[20, 20, 15, 10, 20, 10, 5])[0]
+    shape = rng.choices(["name", "sub", "field", "qual", "rand", "edge", "reserved", "lambda"],
+                        weights=[20, 20, 15, 10, 20, 10, 5, 3])[0]
+    if shape == "lambda":
+        # kopf's own id for a lambda (get_callable_id): outside the property's alphabet because of the ':'
+        s = "lambda:/" + "/".join(ident(rng, 2, 8) for _ in range(rng.randint(1, 6))) + ".py:%d" % rng.randint(1, 999)
+        if rng.random() < 0.3:
+            s += "/" + ident(rng, 1, 8)
+        return s[:300], shape, "lambda"
     if shape == "reserved":
         return rng.choice(["kopf-managed", "touch-dummy", "last-handled-configuration", "kopf-managed-ofDRS"]), shape, "reserved"
     if shape == "name":
@@ -721,7 +729,8 @@ def gen_scenario(rng) -> dict:
                               **({"metadata": {"labels": {"a": "b"}, "annotations": {"note": rng.choice(UNI)}}} if rng.random() < 0.5 else {})})
     return {"storage": spec, "shape": shape, "id": k, "idshape": idshape, "band": band, "body": body, "flags": flags,
             "others": others, "other_kinds": other_kinds,
-            "other_records": [gen_record(rng)[0] for _ in others], "record": rec, "rkind": rkind, "old": old,
+            "other_records": [gen_record(rng)[0] for _ in others],
+            "other_has_record": [rng.random() < 0.65 for _ in others], "record": rec, "rkind": rkind, "old": old,
             "corrupt": corrupt, "legacy": legacy, "prior": prior, "touch": rng.choice([None, "2020-12-31T23:59:59.000001", "значение", ""]),
             "dstorage": dspec, "essence": essence}
 
@@ -755,6 +764,12 @@ def classify_name(full: str, prefix: str, mk: str, which: str, problems: list[st
     """Signature of an invalid generated name: the two known input classes, or a generic one."""
     name = full[len(prefix) + 1:] if full.startswith(prefix + "/") else full
     safe = mk.translate(SAFE_TABLE)
+    if "charset" in problems and set(problems) <= {"charset", "edge"}:
+        bad = {c for c in name if not (c in ALNUM or c in "-_.")}
+        foreign = {c for c in mk if c not in ALPHABET}
+        edge_ok = "edge" not in problems or (safe[0] not in ALNUM and name[0] == safe[0]) or (safe[-1] not in ALNUM and name[-1] == safe[-1])
+        if bad and bad <= foreign and edge_ok:
+            return SIG_CHARSET
     if problems == ["edge"]:
         first_bad = name[0] not in ALNUM and name[0] == safe[0]
         last_bad = name[-1] not in ALNUM and name == safe   # unsuffixed name ending as the id ends
@@ -790,6 +805,11 @@ def classify_sharing(mk: str, mo: str, leaves: Iterable[tuple[str, bool]] = ()) 
             if v1 and room > 7 and len(a) <= room < len(b) and sa == sb[:room - 7] + pinned_suffix(sb):
                 return SIG_FORGED
     if sk == so and len(mk) > 63:
+        # same safe form, both longer than 63: the V2 names differ (digest of the ORIGINAL id), but the V1 name
+        # (digest of the SAFE form) is shared whenever V1 keys are generated: F6d beyond 63 characters
+        for prefix, v1 in leaves:
+            if v1 and len(prefix) + 1 + 7 < 63:
+                return SIG_SAFEFORM
         # same safe form, both hashed: the v2 names differ; only a negative v1 cut (prefix + '/' + suffix
         # longer than 63, v1 enabled) that keeps exactly 56 characters makes one id's v1 name the other's v2 name
         for prefix, v1 in leaves:
@@ -880,7 +900,49 @@ def run_scenario(sc: dict, out: Out, with_driver: bool = True) -> None:
             others[i] = cand if (cand and cand != k and all(c in ALPHABET for c in cand)) else k + "/forged"
     body0 = copy.deepcopy(base)
     writable = True
-    for o, orec in zip(others, sc["other_records"]):
+    has_rec = list(sc.get("other_has_record") or [True] * len(others))
+    recorded = [o for o, h in zip(others, has_rec) if h]
+    D = build_dstorage(sc["dstorage"])
+    dann = [l for l in leaves(D) if isinstance(l, diffbase.AnnotationsDiffBaseStorage)]
+    lv = [(l.prefix, bool(l.v1)) for l in ann_leaves]
+
+    def marked(x: str) -> str:
+        return x + "-ofDRS" if drs else x
+
+    # names the storages use themselves, as (prefix, id-as-the-storage-forms-it)
+    reserved_ids = [(l.prefix, "kopf-managed") for l in ann_leaves if not l.prefix.startswith("kopf.")]
+    reserved_ids += [(l.prefix, marked(l.touch_key)) for l in ann_leaves]
+    reserved_ids += [(l.prefix, marked(l.key)) for l in dann]
+
+    def reserved(mid: str) -> bool:
+        return any(px in prefixes and (mid == res or (len(mid) <= 63 and len(res) <= 63 and mid.translate(SAFE_TABLE) == res.translate(SAFE_TABLE)))
+                   for px, res in reserved_ids)
+
+    def vs_reserved(mid: str) -> dict | None:
+        """the id against the storages' own keys: the same name (F6g), or one of the id-sharing classes
+        (an id may as well forge / share the safe form of / collide in digest with the touch or diff-base key)"""
+        if reserved(mid):
+            return SIG_RESERVED
+        for px, res in reserved_ids:
+            if px in prefixes and res != "kopf-managed":
+                c = classify_sharing(mid, res, lv)
+                if c.get("class") != "unknown":
+                    return c
+        return None
+
+    def classify_pair(ma: str, mb: str) -> dict:
+        """two (marked) ids interfering: a known input class, or 'unknown'"""
+        c = classify_sharing(ma, mb, lv)
+        if c.get("class") != "unknown":
+            return c
+        return vs_reserved(ma) or vs_reserved(mb) or c
+
+    def classify_one(mid: str, site: str, shape: str) -> dict:
+        return vs_reserved(mid) or {"site": site, "shape": shape}
+
+    for o, orec, h in zip(others, sc["other_records"], has_rec):
+        if not h:
+            continue
         p = new_patch()
         r = call(S.store, key=o, record=rec_dict(orec), body=Body(body0), patch=p)
         if r[0] != "ok":
@@ -913,6 +975,21 @@ def run_scenario(sc: dict, out: Out, with_driver: bool = True) -> None:
 
     before0 = merge_patch(body0, patch0) if judge else body0    # what the object would be without this store
     before_others = fetch_all(before0) if judge else {}
+    if judge:
+        # an id that never stored a record reads nothing (whatever else is on the object)
+        holders = [marked(o) for o in recorded] + ([mk] if (sc.get("old") is not None or sc.get("legacy") is not None) else []) \
+            + (["prior-handler/x" + ("-ofDRS" if drs else "")] if sc.get("prior") else [])
+        blank = [o for o, h in zip(others, has_rec) if not h]
+        if sc.get("old") is None and sc.get("legacy") is None:
+            blank = blank + [k]
+        for o in blank:
+            got0 = call(S.fetch, key=o, body=Body(before0))
+            if got0 != ["ok", None]:
+                mo = marked(o)
+                sig = next((c for c in (classify_pair(mo, h) for h in holders if h != mo) if c.get("class") != "unknown"),
+                           vs_reserved(mo) or {"site": "fetch", "shape": "an id without a stored record reads something", "class": "unknown"})
+                out.fail(f"handler {o!r} never stored a record but reads {got0!r} (records on the object: {holders!r})", sig)
+        tags["blank_ids"] = len(blank)
 
     # ---- B. store + fetch -------------------------------------------------------------------------
     rec = rec_dict(sc["record"])
@@ -931,6 +1008,11 @@ def run_scenario(sc: dict, out: Out, with_driver: bool = True) -> None:
     if judge and r[0] == "ok" and writes:
         want = drop_nulls(rec)
         got = f1[1] if f1[0] == "ok" else f1
+        first = next(iter(leaves(S)), None)
+        if isinstance(first, progress.AnnotationsProgressStorage) and first.verbose and f1[0] == "ok" and got is not None \
+                and jsonable(got) != jsonable(rec):
+            out.fail(f"verbose storage does not read the record back identically (nulls included): stored {rec!r}, fetched {got!r}",
+                     {"site": "store/fetch", "shape": "round-trip mismatch (verbose)"})
         collided = [o for o in others if set(own_names) & set(n for l in ann_leaves for n in l.make_keys(o, body=Body(base)))]
         if f1[0] != "ok" or got is None or drop_nulls(jsonable(got)) != jsonable(want):
             sig = {"site": "store/fetch", "shape": "round-trip mismatch"}
@@ -938,7 +1020,7 @@ def run_scenario(sc: dict, out: Out, with_driver: bool = True) -> None:
             # come from known sharing classes
             out.fail(f"stored record is not read back: stored {want!r}, fetched {got!r}", sig)
         tags["roundtrip"] = True
-        check_isolation(out, sc, S, "store", k, mk, others, drs, before0, body1, before_others, own_names, prefixes, status_leaves, desc, Body)
+        check_isolation(out, sc, S, "store", k, mk, others, drs, before0, body1, before_others, own_names, prefixes, status_leaves, desc, Body, classify_pair)
         if collided:
             tags["collided"] = True
     # ---- C. purge ---------------------------------------------------------------------------------
@@ -961,8 +1043,7 @@ def run_scenario(sc: dict, out: Out, with_driver: bool = True) -> None:
     if judge and r2[0] == "ok":
         if f2 != ["ok", None]:
             out.fail(f"after purge the record of {k!r} is still fetched: {f2!r}", {"site": "purge", "shape": "record still readable after purge"})
-        lv = [(l.prefix, bool(l.v1)) for l in ann_leaves]
-        colliding = any(classify_sharing(mk, (o + "-ofDRS") if drs else o, lv).get("class") != "unknown" for o in others)
+        colliding = any(classify_pair(mk, marked(o)).get("class") != "unknown" for o in others)
         anns2 = (body2.get("metadata") or {}).get("annotations") or {}
         for name in own_names:
             if name in anns2:
@@ -989,7 +1070,7 @@ def run_scenario(sc: dict, out: Out, with_driver: bool = True) -> None:
             f3 = call(S.fetch, key=k, body=Body(body3))
             if f3 != ["ok", None]:
                 out.fail(f"store then purge in one patch still yields a record: {f3!r}", {"site": "purge", "shape": "record survives purge in the same patch"})
-        check_isolation(out, sc, S, "purge", k, mk, others, drs, body1, body2, fetch_all(body1), own_names, prefixes, status_leaves, desc, Body)
+        check_isolation(out, sc, S, "purge", k, mk, others, drs, body1, body2, fetch_all(body1), own_names, prefixes, status_leaves, desc, Body, classify_pair)
     # ---- D. touch ---------------------------------------------------------------------------------
     tv = sc.get("touch")
     p = new_patch(patch0 if corrupt else None)
@@ -1007,11 +1088,17 @@ def run_scenario(sc: dict, out: Out, with_driver: bool = True) -> None:
         again = {kk: vv for kk, vv in drop_marker_patch(jsonable(dict(p))).items()}
         if again and tv is not None:
             out.fail(f"touching twice with the same value patches again: {again!r}", {"site": "touch", "shape": "touch not idempotent"})
+        # a touch changes no handler's record
+        for o in [k] + others:
+            b4, a4 = call(S.fetch, key=o, body=Body(body1)), call(S.fetch, key=o, body=Body(body4))
+            if jsonable(b4) != jsonable(a4):
+                out.fail(f"touch({tv!r}) changes what handler {o!r} reads: {b4!r} → {a4!r}",
+                         classify_one(marked(o), "touch", "touch changes a handler's record"))
         for leaf in ann_leaves:
             tnames = list(leaf.make_keys(leaf.touch_key, body=Body(body1)))
             for full in tnames:
                 probs = name_problems(full)
-                if probs and leaf.touch_key == "touch-dummy":
+                if probs:
                     out.fail(f"invalid touch annotation name {full!r}", classify_name(full, leaf.prefix, leaf.touch_key + ("-ofDRS" if drs else ""), "v2" if full == tnames[0] else "v1", probs))
     # ---- E. clear ---------------------------------------------------------------------------------
     essence_in = copy.deepcopy(body1)
@@ -1039,11 +1126,16 @@ def run_scenario(sc: dict, out: Out, with_driver: bool = True) -> None:
                      f"{diff_keys(without_own(snapshot, prefixes, own_fields), without_own(cleared, prefixes, own_fields))}",
                      {"site": "clear", "shape": "foreign stanza changed"})
     # ---- F. diff-base storage -----------------------------------------------------------------------
-    D = build_dstorage(sc["dstorage"])
     ddesc = ddescribe_tree(D)
     essence = sc["essence"]
-    dann = [l for l in leaves(D) if isinstance(l, diffbase.AnnotationsDiffBaseStorage)]
     dkeys = [l.key for l in dann]
+    if judge:
+        # a progress store / purge does not change the last-handled state
+        d0, d1, d2 = (call(D.fetch, body=Body(b)) for b in (before0, body1, body2))
+        for opname, da, db in (("store", d0, d1), ("purge", d1, d2)):
+            if jsonable(da) != jsonable(db):
+                out.fail(f"{opname} of the record of {k!r} changes the last-handled state: {da!r} → {db!r}",
+                         classify_one(mk, opname, "progress record changes the last-handled state"))
     p = new_patch(p1 if (p1 is not None and not corrupt) else None)
     pin = jsonable(dict(p))
     r6 = call(D.store, body=Body(body0), patch=p, essence=copy.deepcopy(essence))
@@ -1068,6 +1160,13 @@ def run_scenario(sc: dict, out: Out, with_driver: bool = True) -> None:
             dprefixes = [l.prefix for l in dann]
             dstatus = [l for l in leaves(D) if isinstance(l, diffbase.StatusDiffBaseStorage)]
             check_foreign(out, "diffbase-store", merge_patch(body0, pin), body6, dprefixes, dstatus, touch=False)
+            # storing the last-handled state changes no handler's record
+            bpin = merge_patch(body0, pin)
+            for o in [k] + others:
+                b6, a6 = call(S.fetch, key=o, body=Body(bpin)), call(S.fetch, key=o, body=Body(body6))
+                if jsonable(b6) != jsonable(a6):
+                    out.fail(f"storing the last-handled state changes what handler {o!r} reads: {b6!r} → {a6!r}",
+                             classify_one(marked(o), "diffbase-store", "last-handled state changes a handler's record"))
             # the essence built from the patched object does not contain the storage's own annotations
             for leaf in dann:
                 built = call(leaf.build, body=Body(body6))
@@ -1195,7 +1294,8 @@ def check_foreign(out: Out, op: str, before: dict, after: dict, prefixes: list[s
 
 
 def check_isolation(out: Out, sc: dict, S: Any, op: str, k: str, mk: str, others: list[str], drs: bool, before: dict, after: dict,
-                    before_others: dict, own_names: list[str], prefixes: list[str], status_leaves: list, desc: list, Body: Any) -> None:
+                    before_others: dict, own_names: list[str], prefixes: list[str], status_leaves: list, desc: list, Body: Any,
+                    classify_pair: Any = None) -> None:
     check_foreign(out, op, before, after, prefixes, status_leaves, touch=False)
     # other handlers read what they read before
     for o in others:
@@ -1203,7 +1303,7 @@ def check_isolation(out: Out, sc: dict, S: Any, op: str, k: str, mk: str, others
         if jsonable(now) != jsonable(before_others.get(o)):
             mo = o + "-ofDRS" if drs else o
             out.fail(f"{op} of {k!r} changes what handler {o!r} reads: {before_others.get(o)!r} → {now!r}",
-                     classify_sharing(mk, mo, [(d["prefix"], d["v1"]) for d in desc if d["t"] == "ann"]))
+                     classify_pair(mk, mo) if classify_pair else classify_sharing(mk, mo, [(d["prefix"], d["v1"]) for d in desc if d["t"] == "ann"]))
     # own-prefix annotations: only names of this handler (and the marker) may change
     ba = (before.get("metadata") or {}).get("annotations") or {}
     aa = (after.get("metadata") or {}).get("annotations") or {}
@@ -1260,7 +1360,7 @@ def process(scs: list[dict], with_driver: bool) -> dict:
         res["evaluations"] += 1
         if nontrivial:
             res["keys"].append(key)
-        for g in ("shape", "band", "idshape", "rkind", "drs", "corrupt", "hashed", "twokeys", "others", "legacy"):
+        for g in ("shape", "band", "idshape", "rkind", "drs", "corrupt", "hashed", "twokeys", "others", "legacy", "blank_ids"):
             count(g, out.tags.get(g))
         count("id_length", "%03d-%03d" % (len(sc["id"]) // 20 * 20, len(sc["id"]) // 20 * 20 + 19))
         count("id_edges", ("alnum" if sc["id"][0] in ALNUM else "special") + "/" + ("alnum" if sc["id"][-1] in ALNUM else "special"))
@@ -1367,6 +1467,10 @@ def run_case(ctx: Ctx, data: dict, with_driver: bool = True) -> None:
         golden_case(ctx, data)
     elif kind == "status-cover":
         status_cover_case(ctx, data)
+    elif kind == "blankpair":
+        blankpair_case(ctx, data)
+    elif kind == "reserved":
+        reserved_case(ctx, data)
     else:
         raise ValueError(f"unknown corpus/replay kind {kind!r}")
 
@@ -1443,6 +1547,67 @@ def golden_case(ctx: Ctx, data: dict) -> None:
             ctx.oracle_fail(f"annotation names of {k!r} changed: recorded {names}, now {got}",
                             {"kind": "golden", "names": [[prefix, v1, drs, k, names]]},
                             {"site": "make_keys", "shape": "recorded annotation names changed (persisted state would be orphaned)"})
+
+
+def blankpair_case(ctx: Ctx, data: dict) -> None:
+    """{"kind":"blankpair","prefix":p,"v1":b,"a":id,"b":id}: only `a` has a record; `b`, which never stored one, must read None."""
+    _, progress, _, bodies, patches = _kopf()
+    with warnings.catch_warnings():
+        warnings.simplefilter("ignore")
+        s = progress.AnnotationsProgressStorage(prefix=data.get("prefix", "kopf.zalando.org"), v1=data.get("v1", True))
+    a, b = data["a"], data["b"]
+    ctx.case(key={"blankpair": [a, b]}, nontrivial=True)
+    ctx.count("corpus", "blankpair")
+    body: dict = {"metadata": {}}
+    p = patches.Patch()
+    s.store(key=a, record={"started": "t0", "success": True, "retries": 1}, body=bodies.Body(body), patch=p)
+    body = merge_patch(body, jsonable(dict(p)))
+    got = call(s.fetch, key=b, body=bodies.Body(body))
+    replay = {"kind": "blankpair", **{x: data[x] for x in data if x != "kind"}}
+    if got != ["ok", None]:
+        ctx.oracle_fail(f"handler {b!r} never stored a record but reads {got!r} (the record of {a!r}: it would count as already succeeded)",
+                        replay, classify_sharing(a, b, [(s.prefix, bool(s.v1))]))
+    outs = ctx.driver.ask([["C16.fetch", describe_tree(s), sfx_table([b]), body, b]])
+    ctx.compare("C16 fetch", jsonable(got), outs[0], replay)
+
+
+def reserved_case(ctx: Ctx, data: dict) -> None:
+    """Handler ids equal to the names the storages use themselves (the reviewer's three reproductions):
+    (a) `kopf-managed` under a custom prefix, (b) `touch-dummy`, (c) `last-handled-configuration`."""
+    _, progress, diffbase, bodies, patches = _kopf()
+    Body = bodies.Body
+    replay = {"kind": "reserved"}
+    ctx.case(key={"reserved": 1}, nontrivial=True)
+    ctx.count("corpus", "reserved")
+
+    def apply(body: dict, fn, **kw) -> dict:
+        p = patches.Patch()
+        fn(body=Body(body), patch=p, **kw)
+        return merge_patch(body, jsonable(dict(p)))
+    # (a) marker
+    s = progress.AnnotationsProgressStorage(prefix="my-op.example.com")
+    body: dict = {"metadata": {}}
+    before = call(s.fetch, key="kopf-managed", body=Body(body))
+    body = apply(body, s.store, key="fn", record={"retries": 1})
+    after = call(s.fetch, key="kopf-managed", body=Body(body))
+    if before != after:
+        ctx.oracle_fail(f"storing the record of 'fn' changes what handler 'kopf-managed' reads: {before!r} → {after!r}", replay, SIG_RESERVED)
+    # (b) touch key
+    s2 = progress.SmartProgressStorage()
+    body = apply({"metadata": {}}, s2.store, key="touch-dummy", record={"retries": 3, "started": "2020-01-01T00:00:00"})
+    before = call(s2.fetch, key="touch-dummy", body=Body(body))
+    body = apply(body, s2.touch, value="2020-12-31T23:59:59.000001")
+    after = call(s2.fetch, key="touch-dummy", body=Body(body))
+    if before != after:
+        ctx.oracle_fail(f"a touch changes what handler 'touch-dummy' reads: {before!r} → {after!r}", replay, SIG_RESERVED)
+    # (c) diff-base key
+    d = diffbase.AnnotationsDiffBaseStorage()
+    body = apply({"metadata": {}}, d.store, essence={"spec": {"x": 1}})
+    before = call(d.fetch, body=Body(body))
+    body = apply(body, s2.store, key="last-handled-configuration", record={"retries": 0, "started": "t"})
+    after = call(d.fetch, body=Body(body))
+    if before != after:
+        ctx.oracle_fail(f"storing the record of 'last-handled-configuration' changes the last-handled state: {before!r} → {after!r}", replay, SIG_RESERVED)
 
 
 def status_cover_case(ctx: Ctx, data: dict) -> None:
